@@ -332,8 +332,14 @@ Attribution(r) ==
   \* (trigger AND the observed result is what Level I -- which contains the deviation -- predicts)
   \cup (IF Trig_BracketedNonIPv6(r) /\ Agreement(r) = "agree" THEN {"Dev_BracketedNonIPv6LosesBrackets"} ELSE {})
 
+\* accessor level: the fields of an observation that differ from what Level I derives from the five parts
+\* (objects whose authority was parsed EAGERLY by the constructor may differ for an empty host: Dev_EmptyHost)
+AccessorDrift(o) ==
+  IF ~("val" \in DOMAIN o /\ Ok(o.val)) \/ Len(Path5(o)) + Len(Query5(o)) + Len(Netloc5(o)) + Len(Frag5(o)) > 300 THEN {}
+  ELSE LET u5 == Five(o) IN {f \in AccessorNames \cap DOMAIN o : o[f] # AccM(f, u5)}
+
 VARIABLE l
-TInit == l = 1 /\ TLCSet(1, [n |-> 0, applicable |-> 0, agree |-> 0, modelled |-> 0, gray |-> 0])
+TInit == l = 1 /\ TLCSet(1, [n |-> 0, applicable |-> 0, agree |-> 0, modelled |-> 0, gray |-> 0, accessors |-> 0, accessor_drift |-> 0])
 TNext ==
   /\ l <= Len(Recs)
   /\ LET r  == Recs[l]
@@ -350,7 +356,10 @@ TNext ==
                          applicable |-> TLCGet(1).applicable + Cardinality({x \in cs : x[2]}),
                          agree |-> TLCGet(1).agree + (IF ag = "agree" THEN 1 ELSE 0),
                          modelled |-> TLCGet(1).modelled + (IF ag \in {"agree", "drift"} THEN 1 ELSE 0),
-                         gray |-> TLCGet(1).gray + (IF ag = "gray" THEN 1 ELSE 0)])
+                         gray |-> TLCGet(1).gray + (IF ag = "gray" THEN 1 ELSE 0),
+                         accessors |-> TLCGet(1).accessors + (IF OutOk(r) THEN Cardinality(DOMAIN r.out.ok) ELSE 0),
+                         accessor_drift |-> TLCGet(1).accessor_drift + (IF OutOk(r) THEN Cardinality(AccessorDrift(r.out.ok)) ELSE 0)])
+           /\ IF OutOk(r) /\ AccessorDrift(r.out.ok) # {} THEN PrintT(<<"ADRIFT", r.id, AccessorDrift(r.out.ok)>>) ELSE TRUE
   /\ l' = l + 1
 Accepted == /\ PrintT(<<"STATS", TLCGet(1)>>)
             /\ TLCGet("stats").diameter - 1 = Len(Recs)
